@@ -546,6 +546,7 @@ static void run_op(void)
                 after_op();
         } else if (strcmp(o, "N") == 0) {
                 fill_buffers();
+                memset(&at, 0, sizeof at);        /* a genuinely fresh object, as a newly created parser would be */
                 cat_init(&at, &desc, &iface, use_mutex ? &mutex_if : NULL);
                 after_op();
         } else if (strcmp(o, "B") == 0) {
